@@ -119,14 +119,14 @@ CLAIMED = {
     ),
     "C10": dict(
         category="other",
-        text="The offer task is verified as a trace of sleeps and sends for every timing configuration (repetition count 0..4 enumerated, as the property bounds it): initial delay inside the window, repetitions at doubling delays, one offer per cyclic period (loop contract), each to the multicast group with the configured TTL and the service's entry; cancelled at any await it sends nothing more except, for a cyclic instance after the first offer, exactly one StopOffer. start/stop/announce/stop-announce/announcer stop (idempotent) and 'nothing follows a StopOffer' (_send_offer after stop, readiness cleared by stop) are postconditions. One helper is the open known finding D6, hence level other.",
+        text="The offer task is verified as a trace of sleeps and sends for every timing configuration and arbitrarily many repetitions: initial delay inside the window, repetitions at doubling delays (loop contract: an arbitrary repetition k waits 2**k * base and offers once; the loop is left after exactly REPETITIONS_MAX), one offer per cyclic period (loop contract), each to the multicast group with the configured TTL and the service's entry; cancelled at any await it sends nothing more except, for a cyclic instance after the first offer, exactly one StopOffer. start/stop/announce/stop-announce/announcer stop (idempotent) and 'nothing follows a StopOffer' (_send_offer after stop, readiness cleared by stop) are postconditions. One helper is the open known finding D6, hence level other.",
         design_ref="DESIGN.md 4/C10, 5/D5-D8",
         technique="coroutine as sequential procedure (sleep = clock advance or cancellation point) + loop contract, symbolic execution of the real AST over the event-loop model + SMT",
         note=TRUST + LOOP + "; random.uniform axiom; defects D5/D7/D8 repaired by fix commits 6818820, 48521a4, b7551db; D6 recorded",
     ),
     "C13": dict(
         category="proof",
-        text="The find task is verified as a trace for every timing configuration (0..4 repetitions enumerated: the property's own bound) while the set of known offers changes arbitrarily during every wait: each round sends, to the multicast group, FindService entries for exactly the watched services with no matching live offer at that instant (ids and wildcards copied, configured TTL), delays double, at most 1 + repetitions rounds, and a round with nothing missing ends the task for good. The number of watched filters is unbounded (comprehension contract of _build_entries: an arbitrary watched filter contributes its entry iff it has no live offer; the round's list is what is sent); _service_found is proved over a store of arbitrarily many offers from arbitrarily many sources (any() as a quantifier: true has a stored, matching witness; false holds for an arbitrary stored offer); the truthfulness of the known-offer store is C05's handle_offer / expiry obligations.",
+        text="The find task is verified as a trace for every timing configuration and arbitrarily many repetitions (loop contract: repetition k waits 2**k * base, ends the task if nothing is missing, otherwise sends its round; left after exactly REPETITIONS_MAX; registrations create no task) while the set of known offers changes arbitrarily during every wait: each round sends, to the multicast group, FindService entries for exactly the watched services with no matching live offer at that instant (ids and wildcards copied, configured TTL), delays double, at most 1 + repetitions rounds, and a round with nothing missing ends the task for good. The number of watched filters is unbounded (comprehension contract of _build_entries: an arbitrary watched filter contributes its entry iff it has no live offer; the round's list is what is sent); _service_found is proved over a store of arbitrarily many offers from arbitrarily many sources (any() as a quantifier: true has a stored, matching witness; false holds for an arbitrary stored offer); the truthfulness of the known-offer store is C05's handle_offer / expiry obligations.",
         design_ref="DESIGN.md 4/C13",
         technique="coroutine as sequential procedure with interference at every await, comprehension contract for the per-round entry list, quantifier semantics of any() over lazily materialised stores, symbolic execution of the real AST + SMT",
         note=TRUST + LOOP + "; random.uniform axiom; a filtered list comprehension is empty iff no element passes the filter, any() is true iff some element is (semantics of comprehensions / any)",
